@@ -40,8 +40,28 @@ func fatalf(format string, a ...interface{}) {
 	os.Exit(2)
 }
 
+// One file set, one source importer and one result per directory for the whole
+// run: the importer caches the packages it type-checks from source.
+var (
+	theFset     = token.NewFileSet()
+	theImporter types.Importer
+	loaded      = map[string]*pkgInfo{}
+)
+
 func load(dir string) *pkgInfo {
-	fset := token.NewFileSet()
+	if p, ok := loaded[dir]; ok {
+		return p
+	}
+	if theImporter == nil {
+		theImporter = softImporter{importer.ForCompiler(theFset, "source", nil)}
+	}
+	p := load1(dir)
+	loaded[dir] = p
+	return p
+}
+
+func load1(dir string) *pkgInfo {
+	fset := theFset
 	full := filepath.Join(repo, dir)
 	pkgs, err := parser.ParseDir(fset, full, func(fi os.FileInfo) bool {
 		n := fi.Name()
@@ -75,7 +95,7 @@ func load(dir string) *pkgInfo {
 		Uses:  map[*ast.Ident]types.Object{},
 	}
 	conf := types.Config{
-		Importer: softImporter{importer.ForCompiler(fset, "source", nil)},
+		Importer: theImporter,
 		Error:    func(error) {},
 	}
 	pkg, _ := conf.Check("github.com/biogo/hts/"+dir, fset, files, info)
